@@ -222,15 +222,22 @@ impl<'a> From<Value<'a>> for NaiveDateTime {
     fn from(val: Value<'a>) -> Self {
         if let ValueInner::Datetime(mut v) = val.0 {
             let len = v.len();
-            assert!(len == 7 || len == 11);
+            assert!(len == 4 || len == 7 || len == 11);
             if let Some(d) = NaiveDate::from_ymd_opt(
                 i32::from(v.read_u16::<LittleEndian>().unwrap()),
                 u32::from(v.read_u8().unwrap()),
                 u32::from(v.read_u8().unwrap()),
             ) {
-                let h = u32::from(v.read_u8().unwrap());
-                let m = u32::from(v.read_u8().unwrap());
-                let s = u32::from(v.read_u8().unwrap());
+                // a datetime at midnight is sent without its time part
+                let (h, m, s) = if len == 4 {
+                    (0, 0, 0)
+                } else {
+                    (
+                        u32::from(v.read_u8().unwrap()),
+                        u32::from(v.read_u8().unwrap()),
+                        u32::from(v.read_u8().unwrap()),
+                    )
+                };
 
                 let d = if len == 11 {
                     let us = v.read_u32::<LittleEndian>().unwrap();
